@@ -1,11 +1,11 @@
 \* the code as it is, non-canonical origins: SizeExact (and NoRefusal through JSON) must be REFUTED
 SPECIFICATION Spec
 CONSTANTS
-  Kinds = {"tx", "block", "header", "stateroot", "extensible", "consensus", "notaryreq", "aer", "nef", "manifest", "contract", "mptnode", "rule", "item"}
+  Kinds = {"tx", "block", "header", "stateroot", "extensible", "consensus", "notaryreq", "aer", "nef", "manifest", "contract", "mptnode", "rule", "signer", "item"}
   K = 3
   Dev = {}
   Quirks = {"SizeOfReceived"}
   Origins = {"canon", "nc-signed", "nc-unsigned"}
   Mode = "mc"
-INVARIANTS TypeOK PathIndependent SizeExact NoRefusal Confluent
+INVARIANTS PathIndependent SizeExact NoRefusal Confluent
 CHECK_DEADLOCK FALSE
